@@ -3,8 +3,11 @@
 From Coq Require Import Extraction ExtrOcamlBasic.
 From Coq Require Import ZArith QArith List.
 From PV Require Import Base.QUtil Base.Round Base.PWL Gen.GenGradOps Model.GradOps.
+From PV Require Import Model.EventLib Model.Seq Model.ModAxis Model.GradBridge.
 Extraction Language OCaml.
 Extraction "../ocaml/gradops/model.ml"
   Qred Qplus Qmult Qminus Qdiv Qle_bool Qeq_bool
   eval to_pwl scale_grad make_ext_trap split_gradient split_gradient_at align calc_duration
-  rotate_pre rotate_post rotate add_single gmag.
+  rotate_pre rotate_post rotate add_single gmag
+  mod_grad_axis flip_grad_axis mod_grad_axis_state decode scale_dblock
+  add_c16.
